@@ -175,9 +175,20 @@ def install(prog):
     def io_error(msg):
         return Agg('io::Error', None, (msg,))
 
+    def os_path(v):
+        """the operating system resolves `.` and `..` when it opens a path (no symlinks in the virtual file system)"""
+        import posixpath
+        p = to_path(v)
+        s = p.to_str()
+        if not p.absolute:
+            s = posixpath.join(ctx_cwd[0], s)
+        return posixpath.normpath(s)
+    ctx_cwd = ['/cwd']
+
     @B('std::fs::File::open', 'File::open')
     def b_file_open(ctx, a, callee):
-        p = to_path(a[0]).to_str()
+        ctx_cwd[0] = ctx.cwd
+        p = os_path(a[0])
         ctx.event('open', p)
         c = ctx.fs.get(p)
         if c is None:
@@ -206,7 +217,8 @@ def install(prog):
 
     @B('std::fs::read_to_string', 'read_to_string')
     def b_fs_read_to_string(ctx, a, callee):
-        p = to_path(a[0]).to_str()
+        ctx_cwd[0] = ctx.cwd
+        p = os_path(a[0])
         ctx.event('open', p)
         c = ctx.fs.get(p)
         if c is None:
@@ -243,7 +255,8 @@ def install(prog):
 
     @B('Path::exists', 'Path::is_file')
     def b_path_exists(ctx, a, callee):
-        p = to_path(a[0]).to_str()
+        ctx_cwd[0] = ctx.cwd
+        p = os_path(a[0])
         ctx.event('exists', p)
         return p in ctx.fs
 
